@@ -466,15 +466,20 @@ def _get_or_set_cache(
         return compute_fn()
     cache_key = (func.output_name, to_hashable(kwargs))
 
-    if cache_key in cache:
-        return cache.get(cache_key)
+    # A single read instead of `cache_key in cache` followed by `cache.get(cache_key)`:
+    # another worker sharing the cache may evict the entry in between, `get` then
+    # returns None and that None was returned as the result of the function.
+    # Results are stored as 1-tuples so that a cached None is not mistaken for a miss.
+    hit = cache.get(cache_key)
+    if hit is not None:
+        return hit[0]
     if isinstance(cache, HybridCache):
         t = time.monotonic()
     result = compute_fn()
     if isinstance(cache, HybridCache):
-        cache.put(cache_key, result, time.monotonic() - t)
+        cache.put(cache_key, (result,), time.monotonic() - t)
     else:
-        cache.put(cache_key, result)
+        cache.put(cache_key, (result,))
     return result
 
 
